@@ -242,6 +242,36 @@ theorem loops_eq (credentialed : Bool) (names : List Bytes) :
   rw [h1, h2, h3]
   exact ⟨rfl, rfl, rfl⟩
 
+/-- One iteration of the loop of `validateOrigins` as translated = `Validate.originStep`: the `*` incompatibilities, the parse
+error, the insecure-origin and public-suffix guards with their tolerance switches — each reported, in that order, none
+skipping another — and the insertion into the tree. -/
+theorem originStep_eq (ext : Ext) (credentialed pnaAny tolInsecure tolPSL : Bool) (st : Validate.OState) (raw : Bytes) :
+    Gen.GoSrc.originStep ext credentialed pnaAny tolInsecure tolPSL st raw =
+      Validate.originStep ext credentialed pnaAny tolInsecure tolPSL st raw := by
+  unfold Gen.GoSrc.originStep Validate.originStep Validate.star
+  cases hw : (raw == Facts.headers_ValueWildcard) with
+  | true =>
+    have : raw = Facts.headers_ValueWildcard := by simpa using hw
+    subst this
+    cases credentialed <;> cases pnaAny <;> simp [Facts.headers_ValueWildcard]
+  | false =>
+    simp only [Bool.false_eq_true, if_false]
+    cases hp : Pat.parsePattern ext raw with
+    | error r => rfl
+    | ok p =>
+      simp only []
+      cases Pat.isDeemedInsecure p <;> cases tolInsecure <;> cases credentialed <;> cases pnaAny <;>
+        cases hk : (p.kind == Kind.subdomains) <;> cases tolPSL <;> cases Pat.hostIsEffectiveTLD ext p <;>
+        simp [List.append_assoc, hk]
+
+/-- Hence the fold over the configured origin patterns is the model's. -/
+theorem originLoop_eq (ext : Ext) (credentialed pnaAny tolInsecure tolPSL : Bool) (patterns : List Bytes) :
+    patterns.foldl (Gen.GoSrc.originStep ext credentialed pnaAny tolInsecure tolPSL) {} =
+      patterns.foldl (Validate.originStep ext credentialed pnaAny tolInsecure tolPSL) {} := by
+  have h : Gen.GoSrc.originStep ext credentialed pnaAny tolInsecure tolPSL = Validate.originStep ext credentialed pnaAny tolInsecure tolPSL := by
+    funext st raw; exact originStep_eq ext credentialed pnaAny tolInsecure tolPSL st raw
+  rw [h]
+
 /-- The four decision steps of the preflight pipeline, as translated from the working tree, are the modelled ones. -/
 theorem pipeline_eq (icfg : ICfg) (buf : Buf) (reqHdrs : HdrMap) (origin acrm : Bytes) (debug : Bool) :
     Gen.GoSrc.processOriginForPreflight icfg buf origin [origin] = GoRt.result buf (Serve.processOriginForPreflight (modelDec icfg) icfg buf origin) ∧
